@@ -83,7 +83,14 @@ Mag1 == { << S("a", << [Sr("b", <<3, 4>>, TRUE, 90) EXCEPT !.mag = "mag1"] >>), 
 \* only totality is required of the import (Ok or Err), the label may go either way
 Lenient == { << S("a", << Pa(1, 0, 2, << <<0, 0>>, <<5, 5>> >>), Tx(1, <<2, 2>>, "n") >>) >>,
              << S("a", << Pa(1, 0, 2, << <<3, 3>> >>), Tx(1, <<3, 3>>, "n") >>) >> }
-Libs == Hier \cup RectOrders \cup NonRect \cup Arrays \cup Labels \cup Mal \cup Mag1 \cup Lenient
+\* wide fan-out: a parent listed FIRST (and last) that references four otherwise unrelated structures, by SREF and AREF
+Kid(n, l) == S(n, << B(l, 0, RectPts) >>)
+FanTop == S("fan_top", << Sr("kid_c", <<0, 0>>, FALSE, 0), Ar("kid_a", <<0, 20>>, <<14, 20>>, <<0, 30>>, 2, 1, FALSE, 0),
+                          Sr("kid_d", <<30, 0>>, TRUE, 90), Sr("kid_b", <<60, 0>>, FALSE, 180), Sr("kid_c", <<90, 0>>, FALSE, 0) >>)
+Fanout == { << FanTop, Kid("kid_a", 1), Kid("kid_b", 2), Kid("kid_c", 3), Kid("kid_d", 4) >>,
+            << Kid("kid_d", 4), Kid("kid_b", 2), FanTop, Kid("kid_a", 1), Kid("kid_c", 3) >>,
+            << Kid("kid_a", 1), Kid("kid_b", 2), Kid("kid_c", 3), Kid("kid_d", 4), FanTop >> }
+Libs == Hier \cup RectOrders \cup NonRect \cup Fanout \cup Arrays \cup Labels \cup Mal \cup Mag1 \cup Lenient
 Init == c \in Libs
 Next == UNCHANGED c
 Spec == Init /\ [][Next]_c
